@@ -359,26 +359,37 @@ def ob_remove_identities(a):
     name = f"C14.remove_identities.action-unchanged[<= {L} entries, pool {pool_kind}]"
     from qlasskit.qcircuit import gates
     from qlasskit.qcircuit.qcircuitenhanced import QCircuitEnhanced
+    nq = 2
+    fresh = pool_kind == "fresh objects"
     if pool_kind == "self-inverse":
         pool = [(gates.X(), [0]), (gates.CX(), [0, 1]), (gates.H(), [1]), (gates.Barrier(), [])]
+    elif fresh:
+        # every entry is a NEW gate object and a new wire list (as the public API builds them): gates that differ only in the ORDER of their wires
+        # (control vs target) or in their kind must never cancel, whatever notion of "identical" remove_identities uses
+        nq = 3
+        pool = [(gates.X, [0]), (gates.CX, [0, 1]), (gates.CX, [1, 0]), (gates.CCX, [0, 1, 2]), (gates.CCX, [2, 1, 0]), (gates.CZ, [0, 1]), (gates.CZ, [1, 0]),
+                (gates.Swap, [0, 1]), (gates.Swap, [1, 0]), (gates.H, [1]), (gates.T, [0]), (gates.Barrier, [])]
     else:
         pool = [(gates.T(), [0]), (gates.S(), [1]), (gates.X(), [0]), (gates.Barrier(), [])]
     n = 0
     t0 = time.time()
     for length in range(0, L + 1):
         for seq in itertools.product(range(len(pool)), repeat=length):
-            qc = QCircuitEnhanced(2)
+            qc = QCircuitEnhanced(nq)
             entries = {}
             for i in seq:
+                if fresh:
+                    qc.gates.append((pool[i][0](), list(pool[i][1]), None))
+                    continue
                 # the SAME applied-gate tuple object is appended for a repeated pool entry, as uncompute() does
                 entries.setdefault(i, (pool[i][0], list(pool[i][1]), None))
                 qc.gates.append(entries[i])
             before = list(qc.gates)
-            U0 = _unitary(before, 2)
+            U0 = _unitary(before, nq)
             n += 1
             try:
                 qc.remove_identities()
-                U1 = _unitary(qc.gates, 2)
+                U1 = _unitary(qc.gates, nq)
                 ok = np.allclose(U0, U1, atol=1e-9)
                 obs = [f"{type(g).__name__}{w}" for g, w, _ in qc.gates]
             except Exception as ex:  # noqa
@@ -612,6 +623,7 @@ def run(tier, only=None):
     jobs.append(("iadd_tuple", None))
     for kind in ("self-inverse", "mixed"):
         jobs.append(("remove_identities", (5 if tier == "quick" else 6, kind)))
+    jobs.append(("remove_identities", (3 if tier == "quick" else 4, "fresh objects")))
     for n in range(1, 9):
         jobs.append(("qft", (n,)))
     if only:
